@@ -9,15 +9,16 @@ import (
 // cannot block, and performs unbuffered rendezvous itself.
 
 type chanState struct {
+	keep    any // pins the channel: its address is the key, so it must not be reused within the execution
 	closed  bool
 	closeVC vclock
 	q       []vclock // sender clocks of buffered elements, FIFO
 }
 
-func (e *exec) chanSt(id uintptr) *chanState {
+func (e *exec) chanSt(id uintptr, keep any) *chanState {
 	s := e.chans[id]
 	if s == nil {
-		s = &chanState{}
+		s = &chanState{keep: keep}
 		e.chans[id] = s
 	}
 	return s
@@ -106,7 +107,7 @@ func (e *exec) caseReady(self *thread, c *Case) bool {
 		if c.chv.Len() > 0 {
 			return true
 		}
-		cs := e.chanSt(c.id)
+		cs := e.chanSt(c.id, c.chv)
 		if cs.closed || closedProbe(c.chv) {
 			cs.closed = true
 			return true
@@ -119,7 +120,7 @@ func (e *exec) caseReady(self *thread, c *Case) bool {
 		if !c.chv.IsValid() {
 			return false
 		}
-		cs := e.chanSt(c.id)
+		cs := e.chanSt(c.id, c.chv)
 		if cs.closed {
 			return true // will panic, as in Go
 		}
@@ -189,7 +190,7 @@ func (e *exec) pickPartner(self *thread, id uintptr, dir int) *thread {
 	if len(ps) == 0 {
 		panic("mcrt: rendezvous without partner")
 	}
-	if len(ps) == 1 {
+	if len(ps) == 1 || e.det > 0 {
 		return ps[0]
 	}
 	opts := make([]Option, len(ps))
@@ -219,7 +220,7 @@ func (e *exec) selectEnabled(t *thread, o *op) bool {
 // perform executes case c of the running thread, which is known to be ready.
 func (e *exec) perform(c *Case) {
 	t := e.cur
-	cs := e.chanSt(c.id)
+	cs := e.chanSt(c.id, c.chv)
 	if c.dir == 0 {
 		if c.chv.Len() > 0 || cs.closed || closedProbe(c.chv) {
 			wasEmpty := c.chv.Len() == 0
@@ -349,7 +350,7 @@ func Close[T any](ch chan<- T) {
 	}
 	e := ex
 	id := reflect.ValueOf(ch).Pointer()
-	cs := e.chanSt(id)
+	cs := e.chanSt(id, ch)
 	close(ch)
 	cs.closed = true
 	cs.closeVC = e.cur.vc.clone()
@@ -393,7 +394,7 @@ func Select(cases ...Case) int {
 		return def
 	}
 	k := 0
-	if len(ready) > 1 {
+	if len(ready) > 1 && e.det == 0 {
 		opts := make([]Option, len(ready))
 		for i, r := range ready {
 			opts[i] = Option{Label: "case" + string(rune('0'+r)), Class: SelectClass}
